@@ -60,8 +60,11 @@ func runUnlikely(c Case, e *env) []Event {
 			k.attrP = ` id="` + v + `"`
 			k.attrR = ` id="zqplain` + fmt.Sprint(len(marks)) + `"`
 		case "role":
-			k.attrP = ` role="` + unlikelyRoleVals[r.Intn(len(unlikelyRoleVals))] + `"`
-			k.attrR = ` role="note"`
+			// the role alone marks the subtree; class/id may say anything else (also words that
+			// would exempt a class/id marker)
+			extra := pickS(r, "", "", ` class="column-right"`, ` id="main-nav"`, ` class="article-tools content"`, ` class="zqbox"`, ` id="shadow-box"`)
+			k.attrP = ` role="` + unlikelyRoleVals[r.Intn(len(unlikelyRoleVals))] + `"` + extra
+			k.attrR = ` role="note"` + extra
 		default:
 			v := pickS(r, word, word+" wide", "box "+word, word+"-wrap")
 			k.attrP = ` class="` + v + `"`
